@@ -158,7 +158,7 @@ func main() {
 			continue
 		}
 		p, k := funcKey(fn)
-		if fn.Synthetic != "" && !strings.Contains(fn.Synthetic, "closure") {
+		if fn.Synthetic != "" && !strings.Contains(fn.Synthetic, "closure") && fn.Synthetic != "package initializer" {
 			continue
 		}
 		fnIndex[p+"."+k] = fn
